@@ -1139,6 +1139,28 @@ func (p *Parser) lookaheadToken() token.Token {
 	return p.Token
 }
 
+// lookaheadNamedConstraint reports whether the current token starts "CONSTRAINT name FOREIGN ..." or "CONSTRAINT name CHECK ...",
+// i.e. it is not a column named constraint followed by its type.
+func (p *Parser) lookaheadNamedConstraint() bool {
+	lexer := p.Lexer.Clone()
+	defer func() {
+		p.Lexer = lexer
+	}()
+
+	p.nextToken()
+	if p.Token.Kind != token.TokenIdent {
+		return false // e.g. a column named constraint of type ARRAY<...>
+	}
+	p.nextToken()
+	return p.Token.IsKeywordLike("FOREIGN") || p.Token.IsKeywordLike("CHECK")
+}
+
+// lookaheadKeywordLike reports whether the token after the current one is the pseudo keyword s.
+func (p *Parser) lookaheadKeywordLike(s string) bool {
+	next := p.lookaheadToken()
+	return next.IsKeywordLike(s)
+}
+
 // lookaheadKeywordLikeArg reports whether the current token is the pseudo keyword s followed by an identifier,
 // i.e. it introduces a TABLE, MODEL or SEQUENCE argument and is not an expression that starts with a column of that name.
 func (p *Parser) lookaheadKeywordLikeArg(s string) bool {
@@ -3206,22 +3228,24 @@ func (p *Parser) parseCreateTable(pos token.Pos) *ast.CreateTable {
 		if p.Token.Kind == ")" {
 			break
 		}
+		// CONSTRAINT, FOREIGN, CHECK and SYNONYM are not reserved: a column may have such a name (written with back quotes, printed
+		// without), so these words start a constraint / synonym clause only when the token that the clause needs follows.
 		switch {
-		case p.Token.IsKeywordLike("CONSTRAINT"):
+		case p.Token.IsKeywordLike("CONSTRAINT") && p.lookaheadNamedConstraint():
 			constraints = append(constraints, p.parseConstraint())
-		case p.Token.IsKeywordLike("FOREIGN"):
+		case p.Token.IsKeywordLike("FOREIGN") && p.lookaheadKeywordLike("KEY"):
 			fk := p.parseForeignKey()
 			constraints = append(constraints, &ast.TableConstraint{
 				ConstraintPos: token.InvalidPos,
 				Constraint:    fk,
 			})
-		case p.Token.IsKeywordLike("CHECK"):
+		case p.Token.IsKeywordLike("CHECK") && p.lookaheadToken().Kind == "(":
 			c := p.parseCheck()
 			constraints = append(constraints, &ast.TableConstraint{
 				ConstraintPos: token.InvalidPos,
 				Constraint:    c,
 			})
-		case p.Token.IsKeywordLike("SYNONYM"):
+		case p.Token.IsKeywordLike("SYNONYM") && p.lookaheadToken().Kind == "(":
 			synonym := p.parseSynonym()
 			synonyms = append(synonyms, synonym)
 		default:
